@@ -7,7 +7,9 @@ R9.1  exhaustive decision table: for every expression / pattern slot (parent cla
       that slot.  Over-parenthesizing is allowed by the property; under-parenthesizing is the violation.
 R9.2  every put handler of an expression / pattern slot reaches precedence_require_parens in the call graph.
 R9.3  _make_exprlike_fst removes parentheses only under `not need_pars(...)`.
-Not decided: multi-line / enclosure clauses (_is_enclosed_or_line, _is_atom depend on layout).
+R9.4  a physical source line is taken for continued only by a comment-aware test (regexes of common.py, _re_line_end_cont,
+      next_frag / prev_frag), never by a bare `line.endswith(backslash)`; the two reviewed uses are frozen with their reason.
+Not decided: the other multi-line / enclosure clauses (_is_enclosed_or_line, _is_atom depend on layout).
 """
 from __future__ import annotations
 
